@@ -195,7 +195,10 @@ def gen_project(rng, n_units=None, wp=True, inline=0.25, headers=True, weird_nam
             chunks.append("}")
         else:
             chunks.extend(wpper[u])
-        for _ in range(rng.randint(1, max_atoms)):
+        if atoms == "none":
+            for _ in range(rng.randint(1, 3)):
+                chunks.append(rng.choice(BENIGN).format(n=ctr.next()))
+        for _ in range(rng.randint(1, max_atoms) if atoms != "none" else 0):
             mode = None
             if rng.chance(inline):
                 mode = "match" if rng.chance(0.6) else "nomatch"
